@@ -245,3 +245,60 @@ class CanaryVolumeWrongPower(Ob):
         pi = R.var('pi') if w.symbolic else math.pi
         dth = (w.at(m.facecenters._y, (P0[1] + 1,)) - w.at(m.facecenters._y, (P0[1],))) if w.nd == 2 else 2 * pi
         return [('canary', w.eq(w.at(S['V'], P0), (r2 - r1) * dth))]
+
+
+class CornerEdgeBookkeeping(Ob):
+    """Corner cells (2-D) and edge/corner cells (3-D) of the ghost layer are bookkeeping unknowns: they are never a
+    column of an interior or face-ghost row (proved: bc.BCRows / solver.SolvePDE for arbitrary fields).  What is left
+    is that the system stays SOLVABLE: `mesh.corners` / `mesh.edges` (mixed basic/advanced indexing, numpy's
+    transposition rule: out of the symbolic model's reach) enumerate exactly those cells, each gets exactly one
+    diagonal entry and a zero right-hand side, and the assembled system of a diffusion-reaction problem has full rank.
+    BOUNDED stand-in (never counted as proved): native runs on small grids."""
+    name = 'mesh.corners_edges/bookkeeping_rows_keep_system_regular(bounded)'
+    props = ('C04', 'C10')
+    grids = ('Grid2D', 'CylindricalGrid2D', 'PolarGrid2D', 'Grid3D', 'CylindricalGrid3D', 'SphericalGrid3D')
+    bounded_only = True
+    scope = 'grids of 1..4 cells per axis (random), left Dirichlet / top Robin (positive a, b) / otherwise no-flux, random rational data, seeds VERIF_SEED..+5 (quick) / +39 (thorough)'
+
+    def region(self, w):
+        return []
+
+    def points(self, w):
+        return [()]
+
+    def setup(self, w):
+        from .bc import side_shape
+        BC = bnd.BoundaryConditions(w.mesh)              # default no-flux everywhere ...
+        BC.left.fixedValue(w.array('dirl', side_shape(w, 0)))      # ... Dirichlet on the left,
+        BC.top.a = w.array('ta', side_shape(w, 1), 'pos')          # Robin with positive coefficients on the top face
+        BC.top.b = w.array('tb', side_shape(w, 1), 'pos')
+        BC.top.c = w.array('tc', side_shape(w, 1))
+        M, RHS = bnd.boundaryConditionsTerm(BC)
+        D = w.facevar('D', 'pos')
+        beta = cel.CellVariable(w.mesh, 1.0)
+        A = M - dif.diffusionTerm(D) + src_.linearSourceTerm(beta)
+        return dict(M=M, RHS=RHS, A=A)
+
+    def claims(self, w, S, P, part=None):
+        import itertools
+        np_ = T.real_np
+        m = w.mesh
+        shape = tuple(n + 2 for n in w.N)
+        G = np_.arange(int(np_.prod(shape))).reshape(shape)
+        book = set()
+        for idx in itertools.product(*[range(s) for s in shape]):
+            nb = sum(1 for a in range(w.nd) if idx[a] in (0, shape[a] - 1))
+            if nb >= 2:
+                book.add(int(G[idx]))
+        listed = set(int(x) for x in np_.asarray(m.corners).ravel()) if w.nd == 2 else \
+            set(int(x) for x in np_.asarray(m.edges).ravel()) | set(int(x) for x in np_.asarray(m.corners).ravel())
+        out = [('mesh_lists_exactly_the_bookkeeping_cells', listed == book)]
+        Md = S['M'].toarray()
+        ok_rows = True
+        for r in book:
+            nz = np_.nonzero(Md[r])[0]
+            ok_rows = ok_rows and (len(nz) == 1 and nz[0] == r and float(S['RHS'][r]) == 0.0)
+        out.append(('one_diagonal_entry_and_zero_rhs_per_bookkeeping_cell', bool(ok_rows)))
+        Ad = S['A'].toarray()
+        out.append(('assembled_diffusion_reaction_system_has_full_rank', int(np_.linalg.matrix_rank(Ad)) == Ad.shape[0]))
+        return out
